@@ -60,6 +60,55 @@ def run_profiler(d, fakedir, binary, with_go=True, timeout=60, fsize=None):
             "cached": "Using cached objdump" in p.stderr}
 
 
+def option_histories(ctx, d, fresh_binary):
+    import re
+    go = shutil.which("go")
+    prof = os.path.join(d, "seccomp-profiler")
+    if not go:
+        ctx.note("no go toolchain on PATH: option histories not run")
+        return
+    env = {"PATH": os.path.dirname(go) + ":/usr/bin:/bin", "HOME": "/root", "GOFLAGS": "-mod=mod", "GOPROXY": "off", "GOSUMDB": "off", "GOTOOLCHAIN": "local"}
+
+    def run(args, binary):
+        try:
+            p = subprocess.run([prof] + args + [binary], capture_output=True, text=True, timeout=120, env=env, cwd="/")
+        except subprocess.TimeoutExpired:
+            return None
+        return {"rc": p.returncode, "args": args, "names": cmdfam.parse_profile_yaml(p.stdout) if p.returncode == 0 and "-format=code" not in args else None, "stderr": p.stderr[-400:],
+                "cached": "Using cached objdump" in p.stderr}
+    usage = subprocess.run([prof, "-h"], capture_output=True, text=True, env=env).stderr
+    names = sorted(set(re.findall(r"^  -([A-Za-z][\w-]*)", usage, re.M)))
+    if len(names) < 4:
+        raise vlib.Machinery("the usage text of the profiler lists only the options %s" % names)
+    cold = run(["-format=config"], fresh_binary("optcold"))
+    if cold is None or cold["rc"] != 0 or not cold["names"]:
+        ctx.note("the real toolchain gives no cold-cache profile (%s): option histories not run" % (cold,))
+        return
+    want = sorted(cold["names"])
+    outdir = os.path.join(d, "optout")
+    os.makedirs(outdir, exist_ok=True)
+    known = {"d": ["true"], "format": ["code", "config"], "b": ["read"], "allow": ["read,verif_bogus"], "out": [os.path.join(outdir, "first.out")]}
+    nrun = 0
+    for k, name in enumerate(names):
+        for j, val in enumerate(known.get(name, ["true", "main\\.main", "1", "x"])):
+            b = fresh_binary("opt%d_%d" % (k, j))
+            first = run(["-%s=%s" % (name, val)], b)
+            second = run(["-format=config"], b)
+            nrun += 1
+            ctx.cov["evaluations"] += 1
+            ctx.cov["traces_validated_against_impl"] += 1
+            if first is None or second is None:
+                ctx.skip("option history timed out")
+                continue
+            if second["rc"] == 0 and sorted(second["names"]) != want:
+                missing = sorted(set(want) - set(second["names"]))
+                ctx.violation("after a first run with the option -%s=%s the next run %sprinted a profile of %d syscalls; a cold-cache run gives %d (missing: %s)"
+                              % (name, val, "reused the cache and " if second["cached"] else "", len(second["names"]), len(want), missing[:8]),
+                              {"fate": "earlier run with -%s=%s" % (name, val), "first_run": first, "second_run": {k2: v for k2, v in second.items() if k2 != "names"},
+                               "second_profile": second["names"], "cold_profile": want, "admissible": "the cold-cache profile, or an error", "how": "./check C17 quick"})
+    ctx.cov["option_histories"] = {"options_in_the_usage_text": names, "runs": nrun, "cold_profile_syscalls": len(want)}
+
+
 def check(ctx, replay=None):
     th = ctx.tier == "thorough"
     d = cmdfam.build_cmds(ctx)
@@ -207,6 +256,9 @@ def check(ctx, replay=None):
                               % (limit, total, second["names"], want),
                               {"fate": "write fails beyond %d bytes" % limit, "first_run": first, "second_run": second, "cold_profile": want,
                                "admissible": "the cold-cache profile, or an error", "how": "./check C17 quick"})
+        # an earlier run with any of the command's OPTIONS, then a normal run - with the real toolchain, so that options the command hands
+        # on to the disassembler mean what they mean there. The options are read from the command's own usage text (a new one is swept too).
+        option_histories(ctx, d, fresh_binary)
     finally:
         for c in created:
             for p in [c] + [os.path.join(os.path.dirname(c), x) for x in (os.listdir(os.path.dirname(c)) if os.path.isdir(os.path.dirname(c)) else []) if x.startswith(os.path.basename(c))]:
